@@ -137,6 +137,7 @@ class MemTransport(asyncio.Transport):
         self.writes = []           # list of (kind, bytes) one per write/writelines call
         self.endpoint = None       # accessory-side handler, set by Net._opened
         self.closed_by = None
+        self.lost_delay_ticks = 0   # >0 models a non-empty send buffer: connection_lost arrives later
 
     # ---- asyncio.Transport API
     def get_extra_info(self, name, default=None):
@@ -189,6 +190,7 @@ class MemTransport(asyncio.Transport):
             return
         self._closing = True
         self.closed_by = self.closed_by or "client"
+        self.net._closed(self)
         self._schedule_lost(None)
 
     def abort(self):
@@ -199,10 +201,13 @@ class MemTransport(asyncio.Transport):
         if self._conn_lost:
             return
         self._conn_lost = True
-        self._loop.call_soon(self._call_connection_lost, exc)
+        if self.lost_delay_ticks > 0 and exc is None and self.closed_by == "client":
+            self._loop.call_later(self.lost_delay_ticks / TICKS, self._call_connection_lost, exc)
+        else:
+            self._loop.call_soon(self._call_connection_lost, exc)
 
     def _call_connection_lost(self, exc):
-        self.net._closed(self)
+        self.net._closed(self)      # no-op when already recorded at close() time
         try:
             self._protocol.connection_lost(exc)
         finally:
@@ -213,6 +218,7 @@ class MemTransport(asyncio.Transport):
             return
         self._closing = True
         self.closed_by = self.closed_by or "error"
+        self.net._closed(self)
         self._schedule_lost(exc)
 
     def _fatal_error(self, exc, message):
